@@ -89,7 +89,7 @@ func genC19Script(rt *rapid.T, gates bool) []tOp {
 			choices = []string{"advance"}
 		}
 		if len(ts) > 0 {
-			choices = append(choices, "refresh", "stop", "clear", "clear2", "clearAtDue", "refreshAtDue", "advanceDue", "advanceDue", "advanceDue", "clearNil")
+			choices = append(choices, "refresh", "refresh2", "stop", "clear", "clear2", "clearAtDue", "refreshAtDue", "advanceDue", "advanceDue", "advanceDue", "clearNil")
 			if gates {
 				choices = append(choices, "gateTickClear", "gateTickPass", "gateStopDouble", "gateTickClear")
 			}
@@ -134,8 +134,11 @@ func genC19Script(rt *rapid.T, gates bool) []tOp {
 			ops = append(ops, tOp{Kind: "advance", Mode: m, I: i})
 		case "clearNil":
 			ops = append(ops, tOp{Kind: k})
-		case "refresh", "refreshAtDue":
+		case "refresh", "refresh2", "refreshAtDue":
 			i := rapid.IntRange(0, len(ts)-1).Draw(rt, l+".i")
+			if k == "refresh2" && ts[i].interval {
+				continue
+			}
 			if ts[i].interval && (k == "refreshAtDue" || ts[i].cancelled || ts[i].self) {
 				// refreshing an interval at its tick instant or after its
 				// cancellation is outside what callers do and what the
@@ -397,6 +400,22 @@ func runC19(ops []tOp, w *c19World) {
 			m.armed, m.due = true, w.now()+m.d
 			Settle()
 			w.settleTo(w.now(), -1)
+		case "refresh2":
+			// two goroutines refresh the same timeout at once (pending, fired or cancelled): one callback, one period
+			// after the refresh; nothing left behind once it is cancelled (the end-of-case goroutine check)
+			m := w.ts[o.I]
+			w.stats["concurrent-refresh"] = true
+			if !m.armed {
+				w.stats["concurrent-refresh.fired-or-stopped"] = true
+			}
+			if m.d == 0 {
+				// a period of zero fires between the two refreshes in one serialisation and not in the other
+				w.prompt(what, func() { m.t.Refresh() })
+			} else {
+				w.prompt(what, func() { m.t.Refresh() }, func() { m.t.Refresh() })
+			}
+			m.armed, m.due = true, w.now()+m.d
+			w.settleTo(w.now(), -1)
 		case "stop":
 			m := w.ts[o.I]
 			w.prompt(what, func() { m.t.Stop() })
@@ -492,8 +511,13 @@ func runC19(ops []tOp, w *c19World) {
 			}
 			w.stats[o.Kind] = true
 			if o.Kind == "gateTickClear" {
-				// cancel inside the window between tick and re-arm
-				w.settleTo(w.now(), o.I) // this tick's callback may or may not start
+				// cancel inside the window between tick and re-arm. The loop goroutine is held right after it
+				// received the tick, the cancellation returns (prompt checks that) before the goroutine is let
+				// go: whatever callback of this timer starts afterwards starts after the cancellation returned,
+				// so this tick's callback must not start (no "same instant" tolerance: the order is known)
+				nopt := len(m.opt)
+				w.settleTo(w.now(), o.I)
+				m.opt = m.opt[:nopt]
 				w.prompt(what+" (inside tick window)", func() { utils.ClearInterval(m.t) })
 				m.armed = false
 			} else {
@@ -601,7 +625,7 @@ func TestC19TimersGated(t *testing.T) {
 	col := NewCollector("TestC19TimersGated",
 		"as TestC19Timers, plus gate steps that park the interval goroutine between receiving its tick and re-arming (vhook timer.interval.tick) and cancel it inside that window, and park a canceller between stopping the runtime timer and signalling (vhook timer.Stop.stopped) while a second cancellation runs. non-trivial: as TestC19Timers or a gate fired").Use(t)
 	rapid.Check(t, c19Property(t, col, true))
-	col.RequireClasses(t, "gateTickClear", "gateTickPass", "gateStopDouble")
+	col.RequireClasses(t, "gateTickClear", "gateTickPass", "gateStopDouble", "concurrent-refresh.fired-or-stopped")
 }
 
 // TestC19IntervalTickWindow is the deterministic demonstration of the defect
